@@ -265,9 +265,12 @@ def fill_python(chk, events, pyfiles):
 
 def validate(chk, events):
     """-> indices (0-based) of the events Trace_C10 rejects"""
+    import concurrent.futures as cf
     bad = set()
-    for part in common.chunks(list(range(len(events))), 6000):
-        ok, matched, tres = common.trace_validate("Trace_C10", [events[i] for i in part], timeout=1800, heap="6g")
+    parts = list(common.chunks(list(range(len(events))), 3000))
+    with cf.ThreadPoolExecutor(max_workers=4) as ex:
+        results = list(ex.map(lambda part: common.trace_validate("Trace_C10", [events[i] for i in part], timeout=1800, heap="4g"), parts))
+    for part, (ok, matched, tres) in zip(parts, results):
         chk.add_tlc("Trace_C10", tres)
         if matched != len(part):
             raise ToolError(f"Trace_C10 consumed {matched}/{len(part)}")
